@@ -243,6 +243,8 @@ class SrvAdapter:
     def _env_tok(self, environ):
         for t, s in self.socks.items():
             if self.sio.environ.get(self.eid[t]) is environ:
+                if dict(environ) != getattr(self, 'env_orig', {}).get(t):
+                    return '?env-changed:' + t
                 return 'env:' + t
         return '?env'
 
@@ -506,7 +508,15 @@ class SrvAdapter:
                 self.socks[t] = s
                 self.eid[t] = eid
                 self.owned[t] = set()
-                self._run(sio.eio._trigger_event('connect', eid, {'t': t}))
+                # the request environment of the handshake (what the
+                # application sees must be what the client sent)
+                env = {'t': t, 'REQUEST_METHOD': 'GET',
+                       'HTTP_AUTHORIZATION': 'Bearer tok-' + t,
+                       'HTTP_PROXY_AUTHORIZATION': 'Basic p-' + t,
+                       'HTTP_COOKIE': 'c=' + t, 'QUERY_STRING': 'EIO=4'}
+                self.env_orig = getattr(self, 'env_orig', {})
+                self.env_orig[t] = dict(env)
+                self._run(sio.eio._trigger_event('connect', eid, env))
             elif act == 'EioLost':
                 self._lose(a['t'], a['reason'])
             elif act == 'RxAckDup':
